@@ -88,13 +88,18 @@ impl UpdateGenerator for MarkdownUpdateGenerator {
                     // yields none for it), so there is no outcome: keep it as it is
                     let is_testcase = code_lines.iter().any(|(_, line)| line.starts_with("$ "));
                     let generated = if is_testcase {
-                        let generated = outcomes
+                        let outcome = outcomes
                             .get(testcase_index)
-                            .with_context(|| format!("no outcome for testcase number {}", testcase_index + 1))?
-                            .generate_testcase()
-                            .with_context(|| format!("testcase number {}", testcase_index + 1))?;
+                            .with_context(|| format!("no outcome for testcase number {}", testcase_index + 1))?;
                         testcase_index += 1;
-                        generated
+                        if outcome.result.is_ok() {
+                            // a passing testcase is kept exactly as it is written
+                            formatln!("{}", code_lines.join_newline())
+                        } else {
+                            outcome
+                                .generate_testcase()
+                                .with_context(|| format!("testcase number {}", testcase_index))?
+                        }
                     } else if code_lines.is_empty() {
                         "".to_string()
                     } else {
